@@ -2,7 +2,7 @@
    executable class PathSafe.safe_path. *)
 From Coq Require Import List NArith ZArith Bool Lia.
 Import ListNotations.
-From JB Require Import Constants Bytes Utf8 Num Value Decimal JsonText TreeOps Path PathParse TextRoundtrip KeyPathRoundtrip PathSafe.
+From JB Require Import Constants Bytes Utf8 Num Value Decimal JsonText TreeOps Path PathInd PathParse TextRoundtrip KeyPathRoundtrip PathSafe.
 Open Scope N_scope.
 Set Default Timeout 120.
 
@@ -292,7 +292,7 @@ Definition show_inner (p : path) : list N :=
   | PIndices l => show_indices l
   | _ => []
   end.
-Lemma show_path_inner pf f p : safe_inner p = true -> show_path pf (S f) p = show_inner p.
+Lemma show_path_inner pf p : safe_inner p = true -> show_path pf p = show_inner p.
 Proof. destruct p; try discriminate; reflexivity. Qed.
 
 Lemma inner_path_colon x rest s : palt (pstring x) (fun _ => raw_string x) = POk rest s ->
@@ -524,20 +524,20 @@ Section Values.
     | EValue v => show_pvalue pf v
     | _ => []
     end.
-  Lemma flat_show_inner f l : forallb safe_inner l = true -> flat_map (show_path pf (S f)) l = flat_map show_inner l.
+  Lemma flat_show_inner l : forallb safe_inner l = true -> flat_map (show_path pf) l = flat_map show_inner l.
   Proof.
     induction l as [|p l IH]; [reflexivity|]. cbn [forallb flat_map]. intros H. apply andb_true_iff in H. destruct H as [Hp Hl].
-    rewrite (show_path_inner pf f p Hp), IH by exact Hl. reflexivity.
+    rewrite (show_path_inner pf p Hp), IH by exact Hl. reflexivity.
   Qed.
-  Lemma show_expr_paths f l : show_expr pf (S f) (EPaths l) = flat_map (show_path pf f) l.
+  Lemma show_expr_paths l : show_expr pf (EPaths l) = flat_map (show_path pf) l.
   Proof. reflexivity. Qed.
-  Lemma show_expr_operand rp f e : safe_operand okf rp e = true -> show_expr pf (S (S f)) e = show_operand e.
+  Lemma show_expr_operand rp e : safe_operand okf rp e = true -> show_expr pf e = show_operand e.
   Proof.
     destruct e as [l|v| | | |]; try discriminate; [|reflexivity].
     destruct l as [|p l]; [discriminate|]. rewrite show_expr_paths.
     destruct p; try discriminate; cbn [safe_operand show_operand flat_map]; intros H.
-    - rewrite (flat_show_inner f l H). reflexivity.
-    - apply andb_true_iff in H. destruct H as [_ H]. rewrite (flat_show_inner f l H). reflexivity.
+    - rewrite (flat_show_inner l H). reflexivity.
+    - apply andb_true_iff in H. destruct H as [_ H]. rewrite (flat_show_inner l H). reflexivity.
   Qed.
 
   Definition opnd_follow (rest : list N) : bool := val_follow rest && hd_notin [46; 58; 91] (multispace0 rest).
@@ -578,41 +578,41 @@ Section Values.
 End Values.
 
 (* ---------------------------------------------------------------- unfolding equations of the mutual fixpoints *)
-Definition show_atom (pf : N -> list N) (f : nat) (x : expr) : list N :=
-  if is_logic x then 40 :: show_expr pf f x ++ [41] else show_expr pf f x.
-Lemma show_expr_bin pf f op l r :
-  show_expr pf (S f) (EBin op l r) = show_atom pf f l ++ [32] ++ show_binop op ++ [32] ++ show_atom pf f r.
+Definition show_atom (pf : N -> list N) (x : expr) : list N :=
+  if is_logic x then 40 :: show_expr pf x ++ [41] else show_expr pf x.
+Lemma show_expr_bin pf op l r :
+  show_expr pf (EBin op l r) = show_atom pf l ++ [32] ++ show_binop op ++ [32] ++ show_atom pf r.
 Proof. reflexivity. Qed.
-Lemma show_expr_arith pf f op l r :
-  show_expr pf (S f) (EArithB op l r) =
-  show_expr pf f l ++ [32] ++ (match op with BAdd => [43] | BSub => [45] | BMul => [42] | BDiv => [47] | BMod => [37] end) ++ [32] ++ show_expr pf f r.
+Lemma show_expr_arith pf op l r :
+  show_expr pf (EArithB op l r) =
+  show_expr pf l ++ [32] ++ (match op with BAdd => [43] | BSub => [45] | BMul => [42] | BDiv => [47] | BMod => [37] end) ++ [32] ++ show_expr pf r.
 Proof. reflexivity. Qed.
-Lemma show_expr_exists pf f l :
-  show_expr pf (S f) (EExists l) = [101; 120; 105; 115; 116; 115; 40] ++ flat_map (show_path pf f) l ++ [41].
+Lemma show_expr_exists pf l :
+  show_expr pf (EExists l) = [101; 120; 105; 115; 116; 115; 40] ++ flat_map (show_path pf) l ++ [41].
 Proof. reflexivity. Qed.
-Lemma show_path_filter pf f e : show_path pf (S f) (PFilter e) = [63; 40] ++ show_expr pf f e ++ [41].
+Lemma show_path_filter pf e : show_path pf (PFilter e) = [63; 40] ++ show_expr pf e ++ [41].
 Proof. reflexivity. Qed.
-Lemma show_path_predicate pf f e : show_path pf (S f) (PPredicate e) = show_expr pf f e.
+Lemma show_path_predicate pf e : show_path pf (PPredicate e) = show_expr pf e.
 Proof. reflexivity. Qed.
-Lemma show_path_root pf f : show_path pf (S f) PRoot = [36].
+Lemma show_path_root pf : show_path pf PRoot = [36].
 Proof. reflexivity. Qed.
-Lemma safe_expr_S okf f rp e :
-  safe_expr okf (S f) rp e =
+Lemma safe_expr_S okf rp e :
+  safe_expr okf rp e =
   match e with
   | EBin op l r =>
-      if is_cmp op then (2 <=? f)%nat && safe_operand okf rp l && safe_operand okf rp r
-      else safe_expr okf f rp l && safe_expr okf f rp r
-  | EArithB _ l r => (2 <=? f)%nat && safe_operand okf rp l && safe_operand okf rp r
-  | EArithU _ x => (2 <=? f)%nat && is_paths x && safe_operand okf rp x
-  | EExists (PRoot :: l) | EExists (PCurrent :: l) => (1 <=? f)%nat && forallb (safe_step okf f) l
+      if is_cmp op then safe_operand okf rp l && safe_operand okf rp r
+      else safe_expr okf rp l && safe_expr okf rp r
+  | EArithB _ l r => safe_operand okf rp l && safe_operand okf rp r
+  | EArithU _ x => is_paths x && safe_operand okf rp x
+  | EExists (PRoot :: l) | EExists (PCurrent :: l) => forallb (safe_step okf) l
   | _ => false
   end.
-Proof. reflexivity. Qed.
+Proof. destruct e; reflexivity. Qed.
 Definition show_uarith (op : uarith) : list N := match op with UAdd => [43] | USub => [45] end.
-Lemma show_expr_unary pf f op x : show_expr pf (S f) (EArithU op x) = show_uarith op ++ show_expr pf f x.
+Lemma show_expr_unary pf op x : show_expr pf (EArithU op x) = show_uarith op ++ show_expr pf x.
 Proof. reflexivity. Qed.
-Lemma safe_step_S okf f p :
-  safe_step okf (S f) p = match p with PFilter e => safe_expr okf f false e | _ => safe_inner p end.
+Lemma safe_step_S okf p :
+  safe_step okf p = match p with PFilter e => safe_expr okf false e | _ => safe_inner p end.
 Proof. reflexivity. Qed.
 
 Lemma operand_not_logic okf rp e : safe_operand okf rp e = true -> is_logic e = false.
@@ -656,36 +656,35 @@ Section Heads.
     - cbn [safe_operand show_operand]. intros H. destruct (show_pvalue_head pf okf Hfl v H) as (c & r & E & Hs & _).
       exists c, r. split; assumption.
   Qed.
-  Lemma show_expr_head : forall j rp e, safe_expr okf j rp e = true -> head_ok (show_expr pf j e).
+  Lemma show_expr_head : forall rp e, safe_expr okf rp e = true -> head_ok (show_expr pf e).
   Proof.
-    induction j as [|f IH]; intros rp e H; [discriminate H|]. rewrite safe_expr_S in H.
-    destruct e as [l|v|op l r|op x|op l r|l]; try discriminate H.
+    intros rp e. revert rp.
+    induction e as [l IH|v|op l r IHl IHr|op x IHx|op l r IHl IHr|l IH] using expr_ind_steps; intros rp H; rewrite safe_expr_S in H;
+      try discriminate H.
     - rewrite show_expr_bin. destruct (is_cmp op) eqn:Ec.
-      + apply andb_true_iff in H. destruct H as [H Hr]. apply andb_true_iff in H. destruct H as [Hf Hl].
-        apply Nat.leb_le in Hf. destruct f as [|[|k]]; try lia.
-        unfold show_atom. rewrite (operand_not_logic okf rp l Hl), (show_expr_operand pf okf rp k l Hl).
+      + apply andb_true_iff in H. destruct H as [Hl Hr].
+        unfold show_atom. rewrite (operand_not_logic okf rp l Hl), (show_expr_operand pf okf rp l Hl).
         destruct (show_operand_head rp l Hl) as (c & t & -> & Hc). eexists; eexists; split; [reflexivity|exact Hc].
       + apply andb_true_iff in H. destruct H as [Hl _]. unfold show_atom at 1. destruct (is_logic l).
         * eexists; eexists; split; reflexivity.
-        * destruct (IH rp l Hl) as (c & t & -> & Hc). eexists; eexists; split; [reflexivity|exact Hc].
+        * destruct (IHl rp Hl) as (c & t & -> & Hc). eexists; eexists; split; [reflexivity|exact Hc].
     - rewrite show_expr_unary. destruct op; eexists; eexists; split; reflexivity.
-    - rewrite show_expr_arith. apply andb_true_iff in H. destruct H as [H Hr]. apply andb_true_iff in H. destruct H as [Hf Hl].
-      apply Nat.leb_le in Hf. destruct f as [|[|k]]; try lia. rewrite (show_expr_operand pf okf rp k l Hl).
+    - rewrite show_expr_arith. apply andb_true_iff in H. destruct H as [Hl Hr]. rewrite (show_expr_operand pf okf rp l Hl).
       destruct (show_operand_head rp l Hl) as (c & t & -> & Hc). eexists; eexists; split; [reflexivity|exact Hc].
     - rewrite show_expr_exists. eexists; eexists; split; reflexivity.
   Qed.
-  Lemma show_path_head j p : safe_step okf j p = true ->
-    exists c r, show_path pf j p = c :: r /\ (c = 46 \/ c = 58 \/ c = 91 \/ c = 63).
+  Lemma show_path_head p : safe_step okf p = true ->
+    exists c r, show_path pf p = c :: r /\ (c = 46 \/ c = 58 \/ c = 91 \/ c = 63).
   Proof.
-    destruct j as [|f]; [discriminate|]. rewrite safe_step_S. destruct p; try discriminate; intros H;
-      try (rewrite (show_path_inner pf f _ H); destruct (show_inner_head _ H) as (c & r & -> & Hc); exists c, r; split; [reflexivity|tauto]).
+    rewrite safe_step_S. destruct p; try discriminate; intros H;
+      try (rewrite (show_path_inner pf _ H); destruct (show_inner_head _ H) as (c & r & -> & Hc); exists c, r; split; [reflexivity|tauto]).
     rewrite show_path_filter. eexists; eexists; split; [reflexivity|tauto].
   Qed.
-  Lemma step_head_facts j p x : safe_step okf j p = true ->
-    name_follow (show_path pf j p ++ x) = true /\ multispace0 (show_path pf j p ++ x) = show_path pf j p ++ x
-    /\ (1 <= length (show_path pf j p))%nat.
+  Lemma step_head_facts p x : safe_step okf p = true ->
+    name_follow (show_path pf p ++ x) = true /\ multispace0 (show_path pf p ++ x) = show_path pf p ++ x
+    /\ (1 <= length (show_path pf p))%nat.
   Proof.
-    intros Hp. destruct (show_path_head j p Hp) as (c & r & E & Hc). rewrite E. cbn [app length].
+    intros Hp. destruct (show_path_head p Hp) as (c & r & E & Hc). rewrite E. cbn [app length].
     destruct Hc as [-> | [-> | [-> | ->]]]; (split; [reflexivity|split; [reflexivity|lia]]).
   Qed.
 
@@ -695,11 +694,12 @@ Section Level.
   Variable pf : N -> list N.
   Variable okf : N -> bool.
   Hypothesis Hfl : forall b, okf b = true -> path_float_reads_back pf b.
+  (* n bounds the SIZE of the expressions / steps already dealt with (PathInd.esize / psize), m is the parser's fuel *)
   Variable n m : nat.
-  Hypothesis HP : forall j rp e rest, (j <= n)%nat -> safe_expr okf j rp e = true -> (length (show_expr pf j e) < m)%nat ->
-    fl_close rest = true -> expr_or_fuel m rp (show_expr pf j e ++ rest) = POk rest e.
-  Hypothesis HQ : forall j p rest, (j <= n)%nat -> safe_step okf j p = true -> (length (show_path pf j p) < m)%nat ->
-    name_follow rest = true -> path_fuel m (show_path pf j p ++ rest) = POk (multispace0 rest) p.
+  Hypothesis HP : forall rp e rest, (esize e <= n)%nat -> safe_expr okf rp e = true -> (length (show_expr pf e) < m)%nat ->
+    fl_close rest = true -> expr_or_fuel m rp (show_expr pf e ++ rest) = POk rest e.
+  Hypothesis HQ : forall p rest, (psize p <= n)%nat -> safe_step okf p = true -> (length (show_path pf p) < m)%nat ->
+    name_follow rest = true -> path_fuel m (show_path pf p ++ rest) = POk (multispace0 rest) p.
 
   Variable rp : bool.
   Notation atom := (expr_atom rp (path_fuel m) (expr_or_fuel m rp)).
@@ -771,13 +771,13 @@ Section Level.
     change (punary (40 :: x)) with (@PErr uarith). change (pchar 40 (40 :: x)) with (POk x tt). cbn [pbind palt].
     rewrite H1. cbn [pbind]. rewrite H2. reflexivity.
   Qed.
-  Lemma atom_paren j e : (j <= n)%nat -> safe_expr okf j rp e = true -> (length (show_expr pf j e) < m)%nat ->
-    atom_ok (40 :: show_expr pf j e ++ [41]) e.
+  Lemma atom_paren e : (esize e <= n)%nat -> safe_expr okf rp e = true -> (length (show_expr pf e) < m)%nat ->
+    atom_ok (40 :: show_expr pf e ++ [41]) e.
   Proof.
     intros Hj He Hlen rest Hrest. exists rest. split; [|left; reflexivity].
     cbn [app]. rewrite <- app_assoc. cbn [app]. apply (atom_open _ (41 :: rest)); [|reflexivity].
-    rewrite (head_ok_ms _ _ (show_expr_head pf okf Hfl j rp e He)).
-    apply (HP j rp e (41 :: rest) Hj He Hlen eq_refl).
+    rewrite (head_ok_ms _ _ (show_expr_head pf okf Hfl rp e He)).
+    apply (HP rp e (41 :: rest) Hj He Hlen eq_refl).
   Qed.
 
   (* exists(...) *)
@@ -791,39 +791,40 @@ Section Level.
   Lemma path_fuel_close x : path_fuel m (41 :: x) = PErr.
   Proof. destruct m; reflexivity. Qed.
 
-  Lemma exists_steps_rt f l rest : (f <= n)%nat -> forallb (safe_step okf f) l = true ->
-    (length (flat_map (show_path pf f) l) < m)%nat ->
-    exists r', many0 (path_fuel m) (S (length (flat_map (show_path pf f) l ++ 41 :: rest))) (flat_map (show_path pf f) l ++ 41 :: rest) [] = POk r' l
+  Lemma exists_steps_rt l rest : Forall (fun p => (psize p <= n)%nat) l -> forallb (safe_step okf) l = true ->
+    (length (flat_map (show_path pf) l) < m)%nat ->
+    exists r', many0 (path_fuel m) (S (length (flat_map (show_path pf) l ++ 41 :: rest))) (flat_map (show_path pf) l ++ 41 :: rest) [] = POk r' l
                /\ multispace0 r' = 41 :: rest.
   Proof.
     intros Hf HF Hlen.
-    assert (G : Forall (fun p => safe_step okf f p = true /\ (length (show_path pf f p) < m)%nat) l).
-    { apply Forall_forall. intros p Hp. split; [rewrite forallb_forall in HF; apply HF; exact Hp|].
-      pose proof (flat_len_each (show_path pf f) l p Hp). lia. }
-    apply (many0_rt (path_fuel m) (show_path pf f) (fun p => safe_step okf f p = true /\ (length (show_path pf f p) < m)%nat) name_follow).
-    - intros a r [Ha La] Hr. apply HQ; assumption.
-    - intros a x [Ha _]. apply (step_head_facts pf okf). exact Ha.
+    assert (G : Forall (fun p => (psize p <= n)%nat /\ safe_step okf p = true /\ (length (show_path pf p) < m)%nat) l).
+    { apply Forall_forall. intros p Hp. split; [rewrite Forall_forall in Hf; apply Hf; exact Hp|].
+      split; [rewrite forallb_forall in HF; apply HF; exact Hp|].
+      pose proof (flat_len_each (show_path pf) l p Hp). lia. }
+    apply (many0_rt (path_fuel m) (show_path pf) (fun p => (psize p <= n)%nat /\ safe_step okf p = true /\ (length (show_path pf p) < m)%nat) name_follow).
+    - intros a r (Hn & Ha & La) Hr. apply HQ; assumption.
+    - intros a x (_ & Ha & _). apply (step_head_facts pf okf). exact Ha.
     - reflexivity.
     - apply path_fuel_close.
     - apply path_fuel_close.
     - exact G.
     - rewrite app_length.
-      pose proof (flat_len_ge (show_path pf f) _ l (fun a Ha => proj2 (proj2 (step_head_facts pf okf f a [] (proj1 Ha)))) G). lia.
+      pose proof (flat_len_ge (show_path pf) _ l (fun a Ha => proj2 (proj2 (step_head_facts pf okf a [] (proj1 (proj2 Ha))))) G). lia.
   Qed.
 
-  Lemma atom_exists f hd l : (f <= n)%nat -> (1 <= f)%nat -> (hd = PRoot \/ hd = PCurrent) -> forallb (safe_step okf f) l = true ->
-    (length (flat_map (show_path pf f) l) < m)%nat ->
-    atom_ok (show_expr pf (S f) (EExists (hd :: l))) (EExists (hd :: l)).
+  Lemma atom_exists hd l : Forall (fun p => (psize p <= n)%nat) l -> (hd = PRoot \/ hd = PCurrent) -> forallb (safe_step okf) l = true ->
+    (length (flat_map (show_path pf) l) < m)%nat ->
+    atom_ok (show_expr pf (EExists (hd :: l))) (EExists (hd :: l)).
   Proof.
-    intros Hf H1 Hhd HF Hlen rest Hrest. exists rest. split; [|left; reflexivity].
-    rewrite show_expr_exists. destruct f as [|f']; [lia|].
-    destruct (exists_steps_rt (S f') l rest Hf HF Hlen) as (r' & E & M).
+    intros Hf Hhd HF Hlen rest Hrest. exists rest. split; [|left; reflexivity].
+    rewrite show_expr_exists.
+    destruct (exists_steps_rt l rest Hf HF Hlen) as (r' & E & M).
     cbn [flat_map]. rewrite <- !app_assoc. cbn [app]. rewrite atom_exists_open.
     destruct Hhd as [-> | ->].
-    - change (show_path pf (S f') PRoot) with [36]. cbn [app multispace0]. change (is_space 36) with false. cbv iota.
+    - change (show_path pf PRoot) with [36]. cbn [app multispace0]. change (is_space 36) with false. cbv iota.
       unfold exists_paths. cbn [pchar]. change (36 =? 36) with true. cbv iota. cbn [pmap pbind palt].
       rewrite E. cbn [pbind]. rewrite M. reflexivity.
-    - change (show_path pf (S f') PCurrent) with [64]. cbn [app multispace0]. change (is_space 64) with false. cbv iota.
+    - change (show_path pf PCurrent) with [64]. cbn [app multispace0]. change (is_space 64) with false. cbv iota.
       unfold exists_paths. cbn [pchar]. change (64 =? 36) with false. change (64 =? 64) with true. cbv iota. cbn [pmap pbind palt].
       rewrite E. cbn [pbind]. rewrite M. reflexivity.
   Qed.
@@ -895,57 +896,55 @@ Section Level.
   Qed.
 
   (* ---- one level of the grammar, given the levels below *)
-  Lemma atom_nl j x : (j <= S n)%nat -> is_logic x = false -> safe_expr okf j rp x = true ->
-    (length (show_expr pf j x) <= m)%nat -> atom_ok (show_expr pf j x) x.
+  Lemma atom_nl x : (esize x <= S n)%nat -> is_logic x = false -> safe_expr okf rp x = true ->
+    (length (show_expr pf x) <= m)%nat -> atom_ok (show_expr pf x) x.
   Proof.
-    intros Hj Hnl Hs Hlen. destruct j as [|f]; [discriminate Hs|]. rewrite safe_expr_S in Hs.
+    intros Hj Hnl Hs Hlen. rewrite safe_expr_S in Hs.
     destruct x as [l|v|op l r|op y|op l r|l]; try discriminate Hs.
     - destruct (is_cmp op) eqn:Ec; [|destruct op; discriminate].
-      apply andb_true_iff in Hs. destruct Hs as [Hs Hr]. apply andb_true_iff in Hs. destruct Hs as [Hf Hl].
-      apply Nat.leb_le in Hf. destruct f as [|[|k]]; try lia.
+      apply andb_true_iff in Hs. destruct Hs as [Hl Hr].
       rewrite show_expr_bin. unfold show_atom.
       rewrite (operand_not_logic okf rp l Hl), (operand_not_logic okf rp r Hr).
-      rewrite (show_expr_operand pf okf rp k l Hl), (show_expr_operand pf okf rp k r Hr).
+      rewrite (show_expr_operand pf okf rp l Hl), (show_expr_operand pf okf rp r Hr).
       apply atom_cmp; assumption.
-    - apply andb_true_iff in Hs. destruct Hs as [Hs Hy]. apply andb_true_iff in Hs. destruct Hs as [Hf Hp].
-      apply Nat.leb_le in Hf. destruct f as [|[|k]]; try lia.
-      rewrite show_expr_unary, (show_expr_operand pf okf rp k y Hy).
+    - apply andb_true_iff in Hs. destruct Hs as [Hp Hy].
+      rewrite show_expr_unary, (show_expr_operand pf okf rp y Hy).
       destruct y as [l| | | | |]; try discriminate Hp. destruct l as [|hd l]; [discriminate Hy|].
       apply atom_unary; [destruct hd; try discriminate Hy; tauto|exact Hy].
-    - apply andb_true_iff in Hs. destruct Hs as [Hs Hr]. apply andb_true_iff in Hs. destruct Hs as [Hf Hl].
-      apply Nat.leb_le in Hf. destruct f as [|[|k]]; try lia.
+    - apply andb_true_iff in Hs. destruct Hs as [Hl Hr].
       rewrite show_expr_arith.
-      rewrite (show_expr_operand pf okf rp k l Hl), (show_expr_operand pf okf rp k r Hr).
+      rewrite (show_expr_operand pf okf rp l Hl), (show_expr_operand pf okf rp r Hr).
       apply atom_arith; assumption.
     - destruct l as [|hd l]; [discriminate Hs|].
-      assert (Hhd : (hd = PRoot \/ hd = PCurrent) /\ (1 <=? f)%nat && forallb (safe_step okf f) l = true)
+      assert (Hhd : (hd = PRoot \/ hd = PCurrent) /\ forallb (safe_step okf) l = true)
         by (destruct hd; try discriminate Hs; (split; [tauto|exact Hs])).
-      destruct Hhd as [Hhd Hs']. apply andb_true_iff in Hs'. destruct Hs' as [H1 HF]. apply Nat.leb_le in H1.
-      apply atom_exists; try assumption; try lia.
-      rewrite show_expr_exists in Hlen. cbn [flat_map] in Hlen. rewrite !app_length in Hlen. cbn [length] in Hlen. lia.
+      destruct Hhd as [Hhd HF].
+      apply atom_exists; try assumption.
+      + rewrite esize_exists in Hj. change (list_sum (map psize (hd :: l))) with (psize hd + list_sum (map psize l))%nat in Hj. apply Forall_forall. intros q Hq. pose proof (psize_in q l Hq). lia.
+      + rewrite show_expr_exists in Hlen. cbn [flat_map] in Hlen. rewrite !app_length in Hlen. cbn [length] in Hlen. lia.
   Qed.
 
-  Lemma atom_of j x : (j <= n)%nat -> safe_expr okf j rp x = true -> (length (show_atom pf j x) <= m)%nat ->
-    atom_ok (show_atom pf j x) x /\ head_ok (show_atom pf j x).
+  Lemma atom_of x : (esize x <= n)%nat -> safe_expr okf rp x = true -> (length (show_atom pf x) <= m)%nat ->
+    atom_ok (show_atom pf x) x /\ head_ok (show_atom pf x).
   Proof.
     intros Hj Hs Hlen. unfold show_atom in *. destruct (is_logic x) eqn:El.
     - split; [|eexists; eexists; split; reflexivity].
       apply atom_paren; try assumption. cbn [length] in Hlen. rewrite app_length in Hlen. cbn [length] in Hlen. lia.
-    - split; [apply atom_nl; try assumption; lia|apply (show_expr_head pf okf Hfl j rp x); assumption].
+    - split; [apply atom_nl; try assumption; lia|apply (show_expr_head pf okf Hfl rp x); assumption].
   Qed.
 
-  Lemma expr_or_level e rest : safe_expr okf (S n) rp e = true -> (length (show_expr pf (S n) e) <= m)%nat ->
-    fl_close rest = true -> eor (show_expr pf (S n) e ++ rest) = POk rest e.
+  Lemma expr_or_level e rest : (esize e <= S n)%nat -> safe_expr okf rp e = true -> (length (show_expr pf e) <= m)%nat ->
+    fl_close rest = true -> eor (show_expr pf e ++ rest) = POk rest e.
   Proof.
-    intros Hs Hlen Hr. destruct (is_logic e) eqn:El.
+    intros Hj Hs Hlen Hr. destruct (is_logic e) eqn:El.
     - destruct e as [| |op l r| | |]; try discriminate El. pose proof Hs as Hs'. rewrite safe_expr_S in Hs'.
-      rewrite show_expr_bin in *.
+      rewrite esize_bin in Hj. rewrite show_expr_bin in *.
       destruct op; try discriminate El; cbn [is_cmp] in Hs'; apply andb_true_iff in Hs'; destruct Hs' as [Hl Hr'];
         rewrite !app_length in Hlen; cbn [length show_binop] in Hlen;
-        destruct (atom_of n l (le_n _) Hl ltac:(lia)) as (A1 & _); destruct (atom_of n r (le_n _) Hr' ltac:(lia)) as (A2 & H2).
+        destruct (atom_of l ltac:(lia) Hl ltac:(lia)) as (A1 & _); destruct (atom_of r ltac:(lia) Hr' ltac:(lia)) as (A2 & H2).
       + exact (or_single _ _ (and_pair _ _ _ _ A1 A2 H2) rest Hr).
       + exact (or_pair _ _ _ _ (and_single _ _ A1) (and_single _ _ A2) H2 rest Hr).
-    - exact (or_single _ _ (and_single _ _ (atom_nl (S n) e (le_n _) El Hs Hlen)) rest Hr).
+    - exact (or_single _ _ (and_single _ _ (atom_nl e Hj El Hs Hlen)) rest Hr).
   Qed.
 End Level.
 
@@ -980,35 +979,36 @@ Section Main.
   Hypothesis Hfl : forall b, okf b = true -> path_float_reads_back pf b.
 
   Definition expr_level (n m : nat) : Prop :=
-    forall rp e rest, safe_expr okf n rp e = true -> (length (show_expr pf n e) < m)%nat -> fl_close rest = true ->
-    expr_or_fuel m rp (show_expr pf n e ++ rest) = POk rest e.
+    forall rp e rest, (esize e <= n)%nat -> safe_expr okf rp e = true -> (length (show_expr pf e) < m)%nat -> fl_close rest = true ->
+    expr_or_fuel m rp (show_expr pf e ++ rest) = POk rest e.
   Definition step_level (n m : nat) : Prop :=
-    forall p rest, safe_step okf n p = true -> (length (show_path pf n p) < m)%nat -> name_follow rest = true ->
-    path_fuel m (show_path pf n p ++ rest) = POk (multispace0 rest) p.
+    forall p rest, (psize p <= n)%nat -> safe_step okf p = true -> (length (show_path pf p) < m)%nat -> name_follow rest = true ->
+    path_fuel m (show_path pf p ++ rest) = POk (multispace0 rest) p.
 
+  Lemma esize_pos e : (1 <= esize e)%nat.
+  Proof. destruct e; cbn [esize]; lia. Qed.
+  Lemma psize_pos p : (1 <= psize p)%nat.
+  Proof. destruct p; cbn [psize psize_with]; lia. Qed.
+
+  (* every size n, every parser fuel m above the length of the printed text *)
   Lemma levels : forall n m, expr_level n m /\ step_level n m.
   Proof.
-    induction n as [n IH] using (well_founded_induction lt_wf). intros m.
-    destruct n as [|n]; [split; intros ? ? ?; discriminate|].
-    destruct m as [|m]; [split; intros ? ? ? ? ?; lia|].
-    assert (HP : forall j rp e rest, (j <= n)%nat -> safe_expr okf j rp e = true -> (length (show_expr pf j e) < m)%nat ->
-      fl_close rest = true -> expr_or_fuel m rp (show_expr pf j e ++ rest) = POk rest e)
-      by (intros j rp e rest Hj; apply (proj1 (IH j ltac:(lia) m))).
-    assert (HQ : forall j p rest, (j <= n)%nat -> safe_step okf j p = true -> (length (show_path pf j p) < m)%nat ->
-      name_follow rest = true -> path_fuel m (show_path pf j p ++ rest) = POk (multispace0 rest) p)
-      by (intros j p rest Hj; apply (proj2 (IH j ltac:(lia) m))).
+    induction n as [|n IH]; intros m.
+    { split; [intros rp e rest Hn|intros p rest Hn]; [pose proof (esize_pos e)|pose proof (psize_pos p)]; lia. }
+    destruct m as [|m]; [split; intros ? ? ? ? ? ?; lia|].
+    destruct (IH m) as [HP HQ].
     split.
-    - intros rp e rest Hs Hlen Hr. rewrite expr_or_fuel_S.
-      apply (expr_or_level pf okf Hfl n m HP HQ rp e rest Hs ltac:(lia) Hr).
-    - intros p rest Hs Hlen Hr. pose proof Hs as Hs'. rewrite safe_step_S in Hs'.
+    - intros rp e rest Hn Hs Hlen Hr. rewrite expr_or_fuel_S.
+      apply (expr_or_level pf okf Hfl n m HP HQ rp e rest Hn Hs ltac:(lia) Hr).
+    - intros p rest Hn Hs Hlen Hr. pose proof Hs as Hs'. rewrite safe_step_S in Hs'.
       destruct p as [| | | |s|s|s|l|e|e];
-        try (rewrite (show_path_inner pf n _ Hs'), path_fuel_S, (ws_inner_path_rt _ rest Hs' Hr); reflexivity);
+        try (rewrite (show_path_inner pf _ Hs'), path_fuel_S, (ws_inner_path_rt _ rest Hs' Hr); reflexivity);
         try discriminate Hs'.
       rewrite show_path_filter in *. rewrite !app_length in Hlen. cbn [length] in Hlen.
-      rewrite <- !app_assoc. cbn [app].
+      rewrite <- !app_assoc. cbn [app]. rewrite psize_filter in Hn.
       apply (filter_open m _ (41 :: rest)); [|reflexivity].
-      rewrite (head_ok_ms _ _ (show_expr_head pf okf Hfl n false e Hs')).
-      apply (HP n false e (41 :: rest) (le_n _) Hs' ltac:(lia) eq_refl).
+      rewrite (head_ok_ms _ _ (show_expr_head pf okf Hfl false e Hs')).
+      apply (HP false e (41 :: rest) ltac:(lia) Hs' ltac:(lia) eq_refl).
   Qed.
 End Main.
 
@@ -1063,25 +1063,25 @@ Section Top.
   Variable okf : N -> bool.
   Hypothesis Hfl : forall b, okf b = true -> path_float_reads_back pf b.
 
-  Lemma show_split f l : forallb (safe_step okf (S f)) l = true ->
-    flat_map (show_path pf (S f)) l = flat_map show_inner (inner_prefix l) ++ flat_map (show_path pf (S f)) (inner_suffix l)
-    /\ steps_follow (flat_map (show_path pf (S f)) (inner_suffix l)) = true
-    /\ (flat_map (show_path pf (S f)) (inner_suffix l) = [] \/ exists x, flat_map (show_path pf (S f)) (inner_suffix l) = 63 :: x).
+  Lemma show_split l : forallb (safe_step okf) l = true ->
+    flat_map (show_path pf) l = flat_map show_inner (inner_prefix l) ++ flat_map (show_path pf) (inner_suffix l)
+    /\ steps_follow (flat_map (show_path pf) (inner_suffix l)) = true
+    /\ (flat_map (show_path pf) (inner_suffix l) = [] \/ exists x, flat_map (show_path pf) (inner_suffix l) = 63 :: x).
   Proof.
     induction l as [|p r IH]; [intros _; split; [reflexivity|split; [reflexivity|left; reflexivity]]|].
     cbn [forallb]. intros H. apply andb_true_iff in H. destruct H as [Hp Hr]. cbn [inner_prefix inner_suffix].
     destruct (safe_inner p) eqn:E.
-    - destruct (IH Hr) as (I1 & I2 & I3). cbn [flat_map]. rewrite I1, (show_path_inner pf f p E), <- app_assoc.
+    - destruct (IH Hr) as (I1 & I2 & I3). cbn [flat_map]. rewrite I1, (show_path_inner pf p E), <- app_assoc.
       split; [reflexivity|split; assumption].
     - rewrite safe_step_S in Hp. destruct p; try (rewrite E in Hp; discriminate Hp); try discriminate E.
       cbn [flat_map app]. rewrite show_path_filter. split; [reflexivity|]. split; [reflexivity|right; eexists; reflexivity].
   Qed.
 
-  Lemma atom_fails_rooted pr er l : forallb (safe_step okf 200) l = true ->
-    expr_atom true pr er (36 :: flat_map (show_path pf 200) l) = PErr.
+  Lemma atom_fails_rooted pr er l : forallb (safe_step okf) l = true ->
+    expr_atom true pr er (36 :: flat_map (show_path pf) l) = PErr.
   Proof.
-    intros HF. destruct (show_split 199 l HF) as (S1 & S2 & S3). rewrite S1.
-    set (rest := flat_map (show_path pf 200) (inner_suffix l)) in *.
+    intros HF. destruct (show_split l HF) as (S1 & S2 & S3). rewrite S1.
+    set (rest := flat_map (show_path pf) (inner_suffix l)) in *.
     destruct (inner_steps_rt (inner_prefix l) rest (inner_prefix_safe l) S2) as (r' & E & M).
     assert (A : ws_around (inner_expr true) (36 :: flat_map show_inner (inner_prefix l) ++ rest)
                 = POk (multispace0 rest) (EPaths (PRoot :: inner_prefix l))).
@@ -1104,10 +1104,10 @@ Section Top.
       change (expr_paths true (46 :: b :: x)) with (@PErr (list path)). rewrite (path_value_dot b x Hb). reflexivity. }
     unfold expr_atom. rewrite W. reflexivity.
   Qed.
-  Lemma first_text p l X : safe_step okf 200 p = true -> first_ok (p :: l) = true -> first_shape (show_path pf 200 p ++ X).
+  Lemma first_text p l X : safe_step okf p = true -> first_ok (p :: l) = true -> first_shape (show_path pf p ++ X).
   Proof.
     intros Hp Hf. rewrite safe_step_S in Hp.
-    destruct p as [| | | |s|s|s|a|e|e]; try discriminate Hp; try rewrite (show_path_inner pf 199 _ Hp); cbn [show_inner].
+    destruct p as [| | | |s|s|s|a|e|e]; try discriminate Hp; try rewrite (show_path_inner pf _ Hp); cbn [show_inner].
     - right. exists 42, X. split; reflexivity.
     - left. eexists; eexists; split; [reflexivity|tauto].
     - destruct (name_first s Hp) as (b & r & -> & _). cbn [first_ok] in Hf. apply negb_true_iff in Hf.
@@ -1118,68 +1118,70 @@ Section Top.
     - rewrite show_path_filter. left. eexists; eexists; split; [reflexivity|tauto].
   Qed.
 
-  Lemma top_steps fuel l : forallb (safe_step okf 200) l = true -> (length (flat_map (show_path pf 200) l) < fuel)%nat ->
-    exists r', many0 (path_fuel fuel) (S (length (flat_map (show_path pf 200) l))) (flat_map (show_path pf 200) l) [] = POk r' l
+  Lemma top_steps fuel l : forallb (safe_step okf) l = true -> (length (flat_map (show_path pf) l) < fuel)%nat ->
+    exists r', many0 (path_fuel fuel) (S (length (flat_map (show_path pf) l))) (flat_map (show_path pf) l) [] = POk r' l
                /\ multispace0 r' = [].
   Proof.
     intros HF Hlen.
-    assert (G : Forall (fun p => safe_step okf 200 p = true /\ (length (show_path pf 200 p) < fuel)%nat) l).
+    assert (G : Forall (fun p => safe_step okf p = true /\ (length (show_path pf p) < fuel)%nat) l).
     { apply Forall_forall. intros p Hp. split; [rewrite forallb_forall in HF; apply HF; exact Hp|].
-      pose proof (flat_len_each (show_path pf 200) l p Hp). lia. }
-    pose proof (many0_rt (path_fuel fuel) (show_path pf 200)
-                  (fun p => safe_step okf 200 p = true /\ (length (show_path pf 200 p) < fuel)%nat) name_follow) as W.
-    specialize (W (fun a r Ha Hr => proj2 (levels pf okf Hfl 200 fuel) a r (proj1 Ha) (proj2 Ha) Hr)).
-    specialize (W (fun a x Ha => step_head_facts pf okf 200 a x (proj1 Ha))).
-    specialize (W [] l (S (length (flat_map (show_path pf 200) l))) eq_refl (path_fuel_nil fuel) (path_fuel_nil fuel) G).
+      pose proof (flat_len_each (show_path pf) l p Hp). lia. }
+    pose proof (many0_rt (path_fuel fuel) (show_path pf)
+                  (fun p => safe_step okf p = true /\ (length (show_path pf p) < fuel)%nat) name_follow) as W.
+    specialize (W (fun a r Ha Hr => proj2 (levels pf okf Hfl (psize a) fuel) a r (le_n _) (proj1 Ha) (proj2 Ha) Hr)).
+    specialize (W (fun a x Ha => step_head_facts pf okf a x (proj1 Ha))).
+    specialize (W [] l (S (length (flat_map (show_path pf) l))) eq_refl (path_fuel_nil fuel) (path_fuel_nil fuel) G).
     rewrite app_nil_r in W. apply W.
-    pose proof (flat_len_ge (show_path pf 200) _ l (fun a Ha => proj2 (proj2 (step_head_facts pf okf 200 a [] (proj1 Ha)))) G). lia.
+    pose proof (flat_len_ge (show_path pf) _ l (fun a Ha => proj2 (proj2 (step_head_facts pf okf a [] (proj1 Ha)))) G). lia.
   Qed.
 
   Lemma safe_path_unrooted p l : p <> PRoot -> (forall e, p <> PPredicate e) ->
-    safe_path okf (p :: l) = forallb (safe_step okf 200) (p :: l) && first_ok (p :: l).
+    safe_path okf (p :: l) = forallb (safe_step okf) (p :: l) && first_ok (p :: l).
   Proof. intros H1 H2. destruct p; try reflexivity; [contradiction H1; reflexivity|]. destruct (H2 e eq_refl). Qed.
 
   Lemma top_unrooted p l : safe_path okf (p :: l) = true -> p <> PRoot -> (forall e, p <> PPredicate e) ->
-    json_path_fuel (S (length (flat_map (show_path pf 200) (p :: l)))) (flat_map (show_path pf 200) (p :: l)) = POk [] (p :: l).
+    json_path_fuel (S (length (flat_map (show_path pf) (p :: l)))) (flat_map (show_path pf) (p :: l)) = POk [] (p :: l).
   Proof.
     intros H N1 N2. rewrite (safe_path_unrooted p l N1 N2) in H. apply andb_true_iff in H. destruct H as [HF Hfo].
     pose proof HF as HF'. rewrite forallb_cons in HF'. apply andb_true_iff in HF'. destruct HF' as [Hp _].
-    remember (flat_map (show_path pf 200) (p :: l)) as T eqn:ET.
+    remember (flat_map (show_path pf) (p :: l)) as T eqn:ET.
     assert (Sh : first_shape T) by (subst T; rewrite flat_map_cons; apply (first_text p l _ Hp Hfo)).
     destruct (first_shape_facts T (path_fuel (length T)) (expr_or_fuel (length T) true) Sh) as (M & A & P).
     destruct (top_steps (S (length T)) (p :: l) HF ltac:(rewrite <- ET; lia)) as (r' & E & Mr). rewrite <- ET in E.
     exact (json_path_unrooted _ T r' (p :: l) M (pred_fails _ T A) P E Mr).
   Qed.
 
-  Lemma top_rooted l : forallb (safe_step okf 200) l = true ->
-    json_path_fuel (S (length (36 :: flat_map (show_path pf 200) l))) (36 :: flat_map (show_path pf 200) l) = POk [] (PRoot :: l).
+  Lemma top_rooted l : forallb (safe_step okf) l = true ->
+    json_path_fuel (S (length (36 :: flat_map (show_path pf) l))) (36 :: flat_map (show_path pf) l) = POk [] (PRoot :: l).
   Proof.
-    intros Hs. remember (flat_map (show_path pf 200) l) as X eqn:EX.
+    intros Hs. remember (flat_map (show_path pf) l) as X eqn:EX.
     destruct (top_steps (S (length (36 :: X))) l Hs ltac:(rewrite <- EX; cbn [length]; lia)) as (r' & E & Mr). rewrite <- EX in E.
     apply (json_path_rooted _ X r' l); [|exact E|exact Mr].
     apply pred_fails. rewrite EX. apply atom_fails_rooted. exact Hs.
   Qed.
 
-  Lemma top_predicate e : safe_expr okf 199 true e = true ->
-    json_path_fuel (S (length (show_expr pf 199 e))) (show_expr pf 199 e) = POk [] [PPredicate e].
+  Lemma top_predicate e : safe_expr okf true e = true ->
+    json_path_fuel (S (length (show_expr pf e))) (show_expr pf e) = POk [] [PPredicate e].
   Proof.
     intros Hs. apply json_path_predicate.
-    - rewrite <- (app_nil_r (show_expr pf 199 e)). apply head_ok_ms. apply (show_expr_head pf okf Hfl 199 true e Hs).
-    - pose proof (proj1 (levels pf okf Hfl 199 (S (length (show_expr pf 199 e)))) true e [] Hs ltac:(lia) eq_refl) as L.
+    - rewrite <- (app_nil_r (show_expr pf e)). apply head_ok_ms. apply (show_expr_head pf okf Hfl true e Hs).
+    - pose proof (proj1 (levels pf okf Hfl (esize e) (S (length (show_expr pf e)))) true e [] (le_n _) Hs ltac:(lia) eq_refl) as L.
       rewrite app_nil_r in L. exact L.
   Qed.
 
-  Lemma show_json_root l : show_json_path pf (PRoot :: l) = 36 :: flat_map (show_path pf 200) l.
-  Proof. unfold show_json_path. rewrite flat_map_cons, (show_path_root pf 199). generalize (flat_map (show_path pf 200) l). reflexivity. Qed.
-  Lemma show_json_pred e : show_json_path pf [PPredicate e] = show_expr pf 199 e.
-  Proof. unfold show_json_path. rewrite flat_map_single. apply show_path_predicate. Qed.
-  Lemma safe_path_root l : safe_path okf (PRoot :: l) = forallb (safe_step okf 200) l.
+  Lemma show_json_root l : show_json_path pf (PRoot :: l) = 36 :: flat_map (show_path pf) l.
   Proof. reflexivity. Qed.
-  Lemma safe_path_pred e : safe_path okf [PPredicate e] = safe_expr okf 199 true e.
+  Lemma show_json_pred e : show_json_path pf [PPredicate e] = show_expr pf e.
+  Proof. unfold show_json_path. rewrite flat_map_single. apply show_path_predicate. Qed.
+  Lemma safe_path_root l : safe_path okf (PRoot :: l) = forallb (safe_step okf) l.
+  Proof. reflexivity. Qed.
+  Lemma safe_path_pred e : safe_path okf [PPredicate e] = safe_expr okf true e.
   Proof. reflexivity. Qed.
   Lemma safe_path_pred_more e q l : safe_path okf (PPredicate e :: q :: l) = false.
   Proof. reflexivity. Qed.
 
+  (* print, then parse: the identity on every safe path, of ANY length and nesting depth (the printer and the class are
+     structural; the parser's fuel S (length text) is shown sufficient along the way, see `levels`) *)
   Theorem path_roundtrip_floats ps : safe_path okf ps = true -> parse_json_path (show_json_path pf ps) = Ok ps.
   Proof.
     intros Hs. unfold parse_json_path.
